@@ -1,0 +1,98 @@
+//! Verification hooks (compiled only with `--cfg truc_verif`).
+//!
+//! A thread-local event sink: when a sink is installed, the runtime primitives and the in-place
+//! vector conversion report what they do as JSON lines, interleaved with the events the
+//! verification harness emits itself through [`emit`].  Without an installed sink every hook is a
+//! cheap no-op.
+
+use std::{cell::RefCell, io::Write};
+
+enum Sink {
+    Memory(Vec<String>),
+    File(std::fs::File),
+}
+
+thread_local! {
+    static SINK: RefCell<Option<Sink>> = RefCell::new(None);
+}
+
+/// Installs an in-memory sink (see [`drain`]).
+pub fn install() {
+    SINK.with(|s| *s.borrow_mut() = Some(Sink::Memory(Vec::new())));
+}
+
+/// Installs a sink that appends every event to `path` immediately (survives an abort).
+pub fn install_file(path: &str) {
+    let file = std::fs::OpenOptions::new()
+        .create(true)
+        .append(true)
+        .open(path)
+        .expect("verif sink file");
+    SINK.with(|s| *s.borrow_mut() = Some(Sink::File(file)));
+}
+
+/// Removes the sink.
+pub fn uninstall() {
+    SINK.with(|s| *s.borrow_mut() = None);
+}
+
+/// Tells whether a sink is installed on this thread.
+pub fn enabled() -> bool {
+    SINK.with(|s| s.try_borrow().map(|s| s.is_some()).unwrap_or(false))
+}
+
+/// Takes the events recorded so far by an in-memory sink.
+pub fn drain() -> Vec<String> {
+    SINK.with(|s| match s.borrow_mut().as_mut() {
+        Some(Sink::Memory(v)) => std::mem::take(v),
+        _ => Vec::new(),
+    })
+}
+
+/// Records one event (a JSON object on one line).
+pub fn emit(line: String) {
+    SINK.with(|s| {
+        if let Ok(mut s) = s.try_borrow_mut() {
+            match s.as_mut() {
+                Some(Sink::Memory(v)) => v.push(line),
+                Some(Sink::File(f)) => {
+                    let _ = f.write_all(line.as_bytes());
+                    let _ = f.write_all(b"\n");
+                }
+                None => {}
+            }
+        }
+    });
+}
+
+/// Hook of the four record primitives.
+pub fn prim<T>(kind: &'static str, base: usize, cap: usize, offset: usize) {
+    if !enabled() {
+        return;
+    }
+    let align = std::mem::align_of::<T>();
+    emit(format!(
+        "{{\"ev\":\"prim\",\"k\":\"{}\",\"base\":\"{}\",\"bmod\":{},\"cap\":{},\"off\":{},\"size\":{},\"align\":{},\"amod\":{},\"drop\":{},\"ty\":\"{}\"}}",
+        kind,
+        base,
+        base % 64,
+        cap,
+        offset,
+        std::mem::size_of::<T>(),
+        align,
+        base.wrapping_add(offset) % align,
+        std::mem::needs_drop::<T>(),
+        std::any::type_name::<T>().replace('\\', "\\\\").replace('"', "\\\""),
+    ));
+}
+
+/// Hook of the in-place vector conversion loop.
+pub fn vec_convert(point: &'static str, first_moved: usize, first_ttt: usize, len: usize) {
+    if !enabled() {
+        return;
+    }
+    emit(format!(
+        "{{\"ev\":\"vc\",\"at\":\"{}\",\"first_moved\":{},\"first_ttt\":{},\"len\":{}}}",
+        point, first_moved, first_ttt, len
+    ));
+}
